@@ -140,10 +140,6 @@ class E3(object):
             elif k == "sql" and e["db"] == "chan":
                 st = e["stmt"]
                 later = events[idx + 1:]
-                if id(e) in self._done:
-                    prior.append(e)
-                    continue
-                self._done.add(id(e))
                 if st.kind == "delete":
                     self._check_delete(path, e, prior, loops, later)
                 elif st.kind == "insert":
@@ -628,6 +624,12 @@ def get(model):
     return _cache[id(model)]
 
 
+class Tx(tuple):
+    """(path, event, prior, later, loops) + .alt_pc (conditions of the
+    innermost loop alternative, or of the path)"""
+    alt_pc = ()
+
+
 def walk_transactions(model, entries=None, db="chan"):
     """yield (path, event, prior, later, loops) for every SQL event on `db`,
     each event object once.  prior = earlier items of the same transaction
@@ -638,7 +640,7 @@ def walk_transactions(model, entries=None, db="chan"):
     done = set()
     out = []
 
-    def walk(path, events, prior, loops):
+    def walk(path, events, prior, loops, alt=None):
         prior = list(prior)
         for idx, e in enumerate(events):
             k = e["k"]
@@ -650,22 +652,23 @@ def walk_transactions(model, entries=None, db="chan"):
                                  for x, _ in flat_events(alt["events"]))
                 if id(e) not in done:
                     done.add(id(e))
-                    for alt in e["alts"]:
-                        walk(path, alt["events"], [] if has_commit else prior,
-                             loops + (e,))
+                    for a2 in e["alts"]:
+                        walk(path, a2["events"], [] if has_commit else prior,
+                             loops + (e,), a2)
                 if has_commit:
                     prior = []
                 else:
                     prior.append(e)
             elif k == "sql" and e["db"] == db:
-                if id(e) not in done:
-                    done.add(id(e))
+                if True:
                     later = []
                     for x in events[idx + 1:]:
                         if x["k"] == "commit" and x["db"] == db:
                             break
                         later.append(x)
-                    out.append((path, e, list(prior), later, loops))
+                    tx = Tx((path, e, list(prior), later, loops))
+                    tx.alt_pc = alt["pc"] if alt is not None else path.pc
+                    out.append(tx)
                 prior.append(e)
 
     for en in entries:
